@@ -165,6 +165,9 @@ Definition finalize (b : br) (P : bytes) : outcome spendinfo :=
        | None :: _ => Panic BuilderInvariant
        | Some n :: _ => from_node_info P n
        end.
+(* the whole API path: TaprootBuilder::new(), the add_* calls in order, finalize *)
+Definition build (items : list item) (P : bytes) : outcome spendinfo :=
+  match run items [] with Ok b => finalize b P | Err e => Fail e end.
 (* TaprootSpendInfo::control_block *)
 Definition control_block (i : spendinfo) (k : bytes * byte) : option cblock :=
   match map_get k (si_map i) with
